@@ -1338,14 +1338,17 @@ async def client_async(case, out, loop):
             out.label("client_fatal:" + type(tc.fatal).__name__)
         # a following honest transfer over a fresh connection succeeds (nothing poisoned)
         if not verified:
+            # ... from another peer, or from the very peer that misbehaved (it has the blob now / was only confused once)
+            addr2 = '5.6.7.8' if case["k"] % 2 else '5.6.7.9'
+            out.label("retry_from_same_peer" if addr2 == '5.6.7.8' else "retry_from_other_peer")
             client2 = BlobExchangeClientProtocol(loop, DOWNLOAD_T)
-            tc2 = PipeTransport(loop, client2, ('5.6.7.9', 3333))
+            tc2 = PipeTransport(loop, client2, (addr2, 3333))
             client2.connection_made(tc2)
             cb2 = side.bm.get_blob(h, len(content) if case["known_length"] else None)
             hdr, body = honest_reply(h, content)
             srv2 = asyncio.ensure_future(serve(tc2, hdr + body, False, Frag([0]), None, len(hdr)))
             try:
-                got, p2 = await asyncio.wait_for(request_blob(loop, cb2, '5.6.7.9', 3333, CONNECT_T, DOWNLOAD_T,
+                got, p2 = await asyncio.wait_for(request_blob(loop, cb2, addr2, 3333, CONNECT_T, DOWNLOAD_T,
                                                               connected_protocol=client2), 600)
                 await quiesce(loop)
                 out.check(cb2.get_is_verified(), "client:later-honest-transfer-fails-after:" + mis, "returned %r" % (got,))
